@@ -9,36 +9,34 @@
 
   Model: `Model/Attr7606.lean` (ExaBGP's attribute loop, value decoders, `_parse_payload`; RFC spec
   `rfc7606Class`, `wfAttr`). `decodeExa xp body = decodeWith noFix attrTable xp body` is the code as it is, on the
-  table re-extracted from `Attribute.registered_attributes` at every run; `Fix` switches the five proposed
-  repairs on. `C08Holds fx tb xp body` (Lemmas/Attr7606Top.lean) is the statement of the property for one body.
+  table re-extracted from `Attribute.registered_attributes` at every run. `C08Holds fx tb xp body`
+  (Lemmas/Attr7606Top.lean) is the statement of the property for one body.
 
-  FULL STATEMENT (kept visible; FALSE of the unchanged code):
+  History. On the tree as found the statement failed in five ways (F5: the treat-as-withdraw marker was never
+  acted on; F6: an overrunning attribute was accepted as a shorter one; C08a: NEXT_HOP of 16 bytes; C08c: flag
+  conflict on a class-less attribute dropped silently, COMMUNITY / EXTENDED / IPv6-EXTENDED without class;
+  C08b). Four are repaired in /repo (2df5c0b, fe3650b, e0e6b78, cfd78d2); their former `decide`d counterexamples
+  are kept below as `example`s of the repaired behaviour and as corpus/C08 regression cases.
+
+  FULL STATEMENT (kept visible; FALSE of the code as it is because of ONE open finding, C08b):
 
       c08 : ∀ xp body, C08Holds noFix attrTable xp body
-      c08_overrun : ∀ xp body rep t, decodeExa xp body = .ok rep → t ∈ occurrences body → t.overrun = true →
-                      rep.announce = [] ∧ ∀ k ∈ rep.attrs, k.code ≠ t.code
-      table_classes_rfc : ∀ row ∈ attrTable, ∀ c, rfc7606Class row.id = some c → classOf row = c
 
-  Refuted below on concrete UPDATEs (`decide`, each replayed on the real code by harness/props/C08.py, corpus/C08):
-      F5  `c08_fails_origin9`, `c08_fails_med3`   the parser marks the UPDATE treat-as-withdraw, `_parse_payload`
-                                                   ignores the marker: routes announced, attribute missing
-      F6  `c08_fails_overrun`                     COMMUNITY declared 8 bytes, 4 left: kept as a 4-byte COMMUNITY
-      C08a `c08_fails_nexthop16`                   NEXT_HOP of 16 bytes accepted
-      C08b `c08_fails_segment0`                    AS_PATH segment with no AS number accepted
-      C08c `c08_fails_flags`                       flag conflict on an attribute whose class has neither flag
-                                                   (COMMUNITY, EXTENDED COMMUNITY, MP_*): dropped without a trace
-      table: COMMUNITY, EXTENDED COMMUNITY, IPv6 EXTENDED COMMUNITY have no class flag (a value error resets
-             the session where the RFC asks for treat-as-withdraw) — see `table_classes_rfc_partial`.
+      refuted by `c08_fails_segment0` (`decide`; replayed on the real code from corpus/C08/05-C08b-segment0):
+      an AS_PATH (or AS4_PATH) segment with no AS number is accepted (RFC 7606 §7.2: malformed,
+      treat-as-withdraw). The repair (proposed_fixes/c08b-aspath-empty-segment.md) breaks a unit test whose
+      helper encodes the empty AS_PATH that way, so it is a known finding, not a commit.
 
   PROVED:
-      `c08_any_repair_state`  for every combination of repairs, every table with the row properties, every
-                              session, every body: the statement, for every occurrence outside the holes that
-                              the missing repairs leave (`GapFree`)
-      `c08_repaired`          = the FULL statement for the code with the five repairs (no side condition left)
-      `c08_partial`           what is true of the unchanged code: outside the named holes every malformed first
-                              occurrence ends with the UPDATE MARKED treat-as-withdraw (what is missing is the
-                              action on the marker, F5) or is a discard-class attribute dropped alone
-      `c08_overrun_repaired`, `overrun_never_kept`, `parse_errors_are_update_errors`, the table theorems.
+      `c08_partial`    THE theorem about the code as it is: the full conclusion for every malformed first
+                       occurrence of every attribute, with one guard that only bites on AS_PATH / AS4_PATH
+                       (`GapFree noFix`: the value is not one that only the lenient segment walk accepts)
+      `c08_repaired`   the FULL statement for the code with the C08b repair, no side condition
+      `c08_general`    both at once (any state of the open repair, any table with the row properties)
+      `c08_overrun`    the last sentence of the property, in full, for the code as it is
+      `overrun_never_kept`, `parse_errors_are_update_errors`, the table theorems.
+      `table_classes_rfc_partial`: every row has the RFC class except AS4_PATH (treat-as-withdraw where RFC 6793
+                       allows attribute discard: stricter).
 -/
 import ExaModel.Lemmas.Attr7606Top
 import ExaModel.Generated.FamilyTable
@@ -50,8 +48,8 @@ open Exa.Generated.AttrTable (attrTable Row)
 /-! ## the generated table -/
 
 /-- The generated attribute table has the row properties every theorem below assumes: each FLAG is the RFC's
-    Optional/Transitive pair, DISCARD alone is used only for an RFC discard-class code, the list-valued
-    attributes have no VALID_ZERO, and every code the RFCs speak about is registered. -/
+    Optional/Transitive pair, DISCARD alone is used only for an RFC discard-class code, NEXT_HOP and the
+    list-valued attributes have no VALID_ZERO, and every code the RFCs speak about is registered. -/
 theorem table_ok : TableOk attrTable := by decide
 
 /-- Every value decoder that can raise ValueError belongs to a class with TREAT_AS_WITHDRAW or DISCARD, so no
@@ -61,90 +59,83 @@ theorem table_value_errors_classed : ValueErrClassed attrTable := by decide
 /-- No class sets both TREAT_AS_WITHDRAW and DISCARD. -/
 theorem table_flags_exclusive : ∀ row ∈ attrTable, ¬ (row.treatAsWithdraw = true ∧ row.discard = true) := by decide
 
-/-- `table_classes_rfc`, partial: every generated row whose code RFC 7606 §7 (RFC 6793 §6, RFC 8092 §6) gives a
-    class has exactly that class (exactly one of TREAT_AS_WITHDRAW / DISCARD set for withdraw / discard, none
-    for session reset) — EXCEPT the named rows: 8, 16, 25 (no flag: a malformed value resets the session where
-    the RFC asks for treat-as-withdraw) and 17 (treat-as-withdraw where RFC 6793 allows attribute discard:
-    stricter, safe). The statement stays true when 8, 16, 25 are given TREAT_AS_WITHDRAW. -/
+/-- `table_classes_rfc`, as strong as the tree allows: every generated row whose code RFC 7606 §7 (RFC 6793 §6,
+    RFC 8092 §6) gives a class has exactly that class — exactly one of TREAT_AS_WITHDRAW / DISCARD set for
+    withdraw / discard, none for session reset (MP_REACH_NLRI, MP_UNREACH_NLRI) — with ONE named exception:
+    AS4_PATH (17) is treat-as-withdraw where RFC 6793 §6 allows attribute discard (stricter: the routes are
+    withdrawn instead of kept without AS4_PATH; nothing wrong can be announced). -/
 theorem table_classes_rfc_partial : ∀ row ∈ attrTable, ∀ c, rfc7606Class row.id = some c →
-    classOf row = c ∨
-    ((row.id = 8 ∨ row.id = 16 ∨ row.id = 25) ∧ c = .withdraw ∧ classOf row = .reset) ∨
-    (row.id = 17 ∧ c = .discard ∧ classOf row = .withdraw) := by decide
+    classOf row = c ∨ (row.id = 17 ∧ c = .discard ∧ classOf row = .withdraw) := by decide
 
 /-- The hand copy of `Family.size` in the model is a sub-table of the generated one. -/
 theorem mp_nh_table_sub : ∀ e ∈ mpNhLens, e ∈ Exa.Generated.FamilyTable.familySize := by decide
 
--- On the unchanged tree the rows that break the full `table_classes_rfc` are 8, 16, 25 (class reset, RFC
--- treat-as-withdraw) and 17 (class treat-as-withdraw, RFC 6793 attribute discard). This is not stated as an
--- `example` on the generated table: it must stop being true when the classes are repaired, and a repair must
--- not break this file. harness/props/C08.py reports the rows through `drv_attr7606 tabclass / rfcclass`.
-
 /-! ## the property -/
 
-/-- C08 for ANY combination of the five repairs, any table with the row properties, any session, any body:
-    if the body decodes to an UpdateCollection `rep`, then for every RFC-malformed first occurrence `t` that
-    does not fall into a hole left open by a missing repair (`GapFree fx`), either `rep` is the empty End-of-RIB
-    collection, or the UPDATE is marked treat-as-withdraw — and with the F5 repair nothing is announced and every
-    route it carries is in `rep.withdraw` —, or `t` is of the RFC discard class and `rep.attrs` is exactly what
-    the block without `t` yields (that attribute dropped, the others kept). -/
-theorem c08_any_repair_state (fx : Fix) (tb : List Row) (htb : TableOk tb) (xp : XP) (body : Bytes) (rep : Rep)
+/-- C08 for either state of the open repair, any table with the row properties, any session, any body: if the
+    body decodes to an UpdateCollection `rep`, then for every RFC-malformed first occurrence `t` that does not
+    fall into the hole the open repair closes (`GapFree fx`), either `rep` is the empty End-of-RIB collection, or
+    nothing is announced and every route the UPDATE carries is in `rep.withdraw` (treat-as-withdraw), or `t` is of
+    the RFC discard class and `rep.attrs` is exactly what the block without `t` yields (that attribute dropped,
+    the others kept). -/
+theorem c08_general (fx : Fix) (tb : List Row) (htb : TableOk tb) (xp : XP) (body : Bytes) (rep : Rep)
     (h : decodeWith fx tb xp body = .ok rep)
     (pre : List Tlv) (t : Tlv) (post : List Tlv) (hocc : occurrences body = pre ++ t :: post)
-    (hfirst : ∀ u ∈ pre, u.code ≠ t.code) (hm : malformed xp.p t = true) (hg : GapFree fx tb xp t) :
+    (hfirst : ∀ u ∈ pre, u.code ≠ t.code) (hm : malformed xp.p t = true) (hg : GapFree fx xp t) :
     rep = emptyRep ∨
-    (rep.taw = true ∧ ∃ pt, decodeParts fx tb xp body = .ok pt ∧
-        (fx.assemble = true → rep.announce = [] ∧ ∀ r ∈ pt.nlri, r ∈ rep.withdraw)) ∨
+    (rep.announce = [] ∧ ∃ pt, decodeParts fx tb xp body = .ok pt ∧ ∀ r ∈ pt.nlri, r ∈ rep.withdraw) ∨
     (rfc7606Class t.code = some .discard ∧
       ∃ st', blockAttrs fx tb xp (pre ++ post) (cutOf (blockOf body)) = .ok st' ∧ rep.attrs = reportedAttrs st') := by
   rcases decode_malformed htb h pre t post hocc hfirst hm hg with h1 | ⟨pt, hp, hr, ht⟩ | h3
   · exact Or.inl h1
-  · refine Or.inr (Or.inl ⟨by rw [hr, assemble_taw]; exact ht, pt, hp, fun hf => ?_⟩)
-    rw [hr]; exact assemble_withdraws fx pt hf ht
+  · have hw := assemble_withdraws pt ht
+    rw [← hr] at hw
+    exact Or.inr (Or.inl ⟨hw.1, pt, hp, hw.2⟩)
   · exact Or.inr (Or.inr h3)
 
-/-- C08, the FULL statement, for the code with the five repairs (F5 assemble, F6 overrun, C08a NEXT_HOP length,
-    C08b empty AS_PATH segment, C08c flag conflict without class) and any table with the row properties — in
-    particular the generated one (`table_ok`): no side condition is left. -/
+/-- C08, the FULL statement, for the code with the one open repair (C08b: an AS_PATH / AS4_PATH segment with no
+    AS number is malformed) and any table with the row properties — in particular the generated one
+    (`table_ok`): no side condition is left. -/
 theorem c08_repaired (tb : List Row) (htb : TableOk tb) (xp : XP) (body : Bytes) : C08Holds allFix tb xp body := by
   intro rep pre t post h hocc hfirst hm
-  have hg : GapFree allFix tb xp t := ⟨Or.inl rfl, id, Or.inl rfl⟩
-  rcases c08_any_repair_state allFix tb htb xp body rep h pre t post hocc hfirst hm hg with h1 | ⟨_, pt, hp, hw⟩ | h3
-  · exact Or.inl h1
-  · exact Or.inr (Or.inl ⟨(hw rfl).1, pt, hp, (hw rfl).2⟩)
-  · exact Or.inr (Or.inr h3)
+  exact c08_general allFix tb htb xp body rep h pre t post hocc hfirst hm (fun h => h)
 
-/-- C08, partial, for the UNCHANGED code on the generated table: every RFC-malformed first occurrence outside
-    the holes F6 (overrun), C08a/C08b (value accepted only by the lenient decoder), C08c (flag conflict without
-    class) — that is `GapFree noFix` — leaves the UPDATE MARKED treat-as-withdraw, or is a discard-class attribute
-    dropped alone with the others kept. What is missing for the full statement is the action on the marker
-    (F5: `rep.announce` is not emptied) and the four holes. -/
+/-- C08 for THE CODE AS IT IS, on the generated table: the full conclusion (End-of-RIB, or nothing announced and
+    every route of the UPDATE withdrawn, or a discard-class attribute dropped alone with the others kept) for
+    every RFC-malformed first occurrence of every attribute. The one guard, `GapFree noFix`, is automatically
+    true unless the attribute is AS_PATH or AS4_PATH (`gapFree_of_not_aspath`), where it excludes exactly the
+    values that only the lenient segment walk accepts (C08b, the open finding). -/
 theorem c08_partial (xp : XP) (body : Bytes) (rep : Rep) (h : decodeExa xp body = .ok rep)
     (pre : List Tlv) (t : Tlv) (post : List Tlv) (hocc : occurrences body = pre ++ t :: post)
-    (hfirst : ∀ u ∈ pre, u.code ≠ t.code) (hm : malformed xp.p t = true) (hg : GapFree noFix attrTable xp t) :
-    rep = emptyRep ∨ rep.taw = true ∨
+    (hfirst : ∀ u ∈ pre, u.code ≠ t.code) (hm : malformed xp.p t = true)
+    (hg : (t.code = 2 ∨ t.code = 17) → GapFree noFix xp t) :
+    rep = emptyRep ∨
+    (rep.announce = [] ∧ ∃ pt, decodeParts noFix attrTable xp body = .ok pt ∧ ∀ r ∈ pt.nlri, r ∈ rep.withdraw) ∨
     (rfc7606Class t.code = some .discard ∧
       ∃ st', blockAttrs noFix attrTable xp (pre ++ post) (cutOf (blockOf body)) = .ok st' ∧ rep.attrs = reportedAttrs st') := by
-  rcases c08_any_repair_state noFix attrTable table_ok xp body rep h pre t post hocc hfirst hm hg with h1 | ⟨h2, _⟩ | h3
-  · exact Or.inl h1
-  · exact Or.inr (Or.inl h2)
-  · exact Or.inr (Or.inr h3)
+  have hg' : GapFree noFix xp t := by
+    by_cases h2 : t.code = 2
+    · exact hg (Or.inl h2)
+    · by_cases h17 : t.code = 17
+      · exact hg (Or.inr h17)
+      · exact gapFree_of_not_aspath noFix xp t h2 h17
+  exact c08_general noFix attrTable table_ok xp body rep h pre t post hocc hfirst hm hg'
 
-/-- `c08_overrun` with the F6 repair (whatever the other repairs): an UPDATE with an attribute whose declared
-    length overruns the block is marked treat-as-withdraw (any occurrence, first or not, any code, known or not). -/
-theorem c08_overrun_repaired (fx : Fix) (hf : fx.overrun = true) (tb : List Row) (xp : XP) (body : Bytes) (rep : Rep)
+/-- `c08_overrun`, in full, for the code as it is (and any table): an UPDATE with an attribute whose declared
+    length overruns the block — any occurrence, first or not, any code, known or not — announces nothing. -/
+theorem c08_overrun (fx : Fix) (tb : List Row) (xp : XP) (body : Bytes) (rep : Rep)
     (h : decodeWith fx tb xp body = .ok rep) (t : Tlv) (ht : t ∈ occurrences body) (ho : t.overrun = true) :
-    rep = emptyRep ∨
-    (rep.taw = true ∧ (fx.assemble = true → rep.announce = [])) := by
-  rcases decode_overrun hf h t ht ho with h1 | ⟨pt, hp, hr, htw⟩
+    rep = emptyRep ∨ (rep.taw = true ∧ rep.announce = []) := by
+  rcases decode_overrun h t ht ho with h1 | ⟨pt, hp, hr, htw⟩
   · exact Or.inl h1
-  · refine Or.inr ⟨by rw [hr, assemble_taw]; exact htw, fun ha => ?_⟩
-    rw [hr]; exact (assemble_withdraws fx pt ha htw).1
+  · refine Or.inr ⟨by rw [hr, assemble_taw]; exact htw, ?_⟩
+    rw [hr]; exact (assemble_withdraws pt htw).1
 
-/-- With the F6 repair the loop never keeps (nor discards, nor silently drops) an overrunning attribute: the
-    decision is treat-as-withdraw before anything else is looked at. -/
-theorem overrun_never_kept (fx : Fix) (hf : fx.overrun = true) (tb : List Row) (xp : XP) (present : List Nat) (t : Tlv)
+/-- The loop never keeps (nor discards, nor silently drops) an overrunning attribute: the decision is
+    treat-as-withdraw before anything else is looked at. -/
+theorem overrun_never_kept (fx : Fix) (tb : List Row) (xp : XP) (present : List Nat) (t : Tlv)
     (ho : t.overrun = true) : decide1 fx tb xp present t = .taw :=
-  decide1_overrun fx tb xp present t hf ho
+  decide1_overrun fx tb xp present t ho
 
 /-- "… or the session is reset with an UPDATE Message Error NOTIFICATION": on the generated table, whatever
     ends the parsing of an attribute block early is a Notify with code 3 (never another exception) — or lies
@@ -153,7 +144,7 @@ theorem parse_errors_are_update_errors (fx : Fix) (xp : XP) (blk : Bytes) (e : F
     (h : parseBlock fx attrTable xp blk = .error e) : FailOk e :=
   parseBlock_fail table_value_errors_classed blk e h
 
-/-! ## witnesses against the full statement on the model of the unchanged code -/
+/-! ## the open finding, and the former ones as examples of the repaired behaviour -/
 
 def xp0 : XP := { p := { asn4 := true, addpath := [], extnh := [], msgSize := 65535 }, families := [(1, 1), (2, 1)] }
 
@@ -173,6 +164,8 @@ def tCommOverrun : Tlv := ⟨0xc0, 8, 8, [0xfd, 0xe8, 0, 1]⟩
 def tNextHop16 : Tlv := ⟨0x40, 3, 16, [0, 0, 0, 0, 0, 0, 0, 0, 0, 0, 0, 0, 0, 0, 0, 0]⟩
 def tSeg0 : Tlv := ⟨0x40, 2, 2, [2, 0]⟩
 def tUnreachFlags : Tlv := ⟨0xc0, 15, 10, [0, 2, 1, 48, 0x20, 0x01, 0x0d, 0xb8, 0xff, 0xff]⟩
+def tCommFlags : Tlv := ⟨0x40, 8, 4, [0xfd, 0xe8, 0, 1]⟩
+def tOriginLowBits : Tlv := ⟨0x4f, 1, 1, [0]⟩
 
 def bodyOrigin9 : Bytes := mkBody [tOrigin9, tAsPath, tNextHop, tMed] nlri24
 def bodyMed3 : Bytes := mkBody [tOrigin, tAsPath, tNextHop, tMed3] nlri24
@@ -182,53 +175,42 @@ def bodyOverrun : Bytes :=
 def bodyNextHop16 : Bytes := mkBody [tOrigin, tAsPath, tNextHop16] nlri24
 def bodySeg0 : Bytes := mkBody [tOrigin, tSeg0, tNextHop] nlri24
 def bodyUnreachFlags : Bytes := mkBody [tOrigin, tAsPath, tNextHop, tUnreachFlags] nlri24
+def bodyCommFlags : Bytes := mkBody [tOrigin, tAsPath, tNextHop, tCommFlags] nlri24
 
-/-- F5: ORIGIN with value 9 (first attribute). The model of the unchanged code marks the UPDATE
-    treat-as-withdraw and still announces 10.0.0.0/24 without ORIGIN: the full statement fails. -/
-theorem c08_fails_origin9 : ¬ C08Holds noFix attrTable xp0 bodyOrigin9 :=
-  not_c08_of [] tOrigin9 [tAsPath, tNextHop, tMed] (by decide) (by decide) (by decide) (by decide) (by decide)
-
-/-- F5: MED of length 3 (last attribute): marked, still announced, MED missing. -/
-theorem c08_fails_med3 : ¬ C08Holds noFix attrTable xp0 bodyMed3 :=
-  not_c08_of [tOrigin, tAsPath, tNextHop] tMed3 [] (by decide) (by decide) (by decide) (by decide) (by decide)
-
-/-- F6 (`c08_overrun` fails): COMMUNITY declared 8 bytes with 4 left in the block is kept as the 4-byte
-    COMMUNITY 65000:1, the UPDATE is not even marked, the route is announced. -/
-theorem c08_fails_overrun : ¬ C08Holds noFix attrTable xp0 bodyOverrun ∧
-    okAnd (fun r => !r.taw && r.attrs.any (fun k => k.code == 8 && k.val == [0xfd, 0xe8, 0, 1]))
-      (decodeExa xp0 bodyOverrun) = true :=
-  ⟨not_c08_of [tOrigin, tAsPath, tNextHop] tCommOverrun [] (by decide) (by decide) (by decide) (by decide) (by decide),
-   by decide⟩
-
-/-- C08a: NEXT_HOP of 16 bytes is accepted (RFC 7606 §7.3: malformed unless the length is 4). -/
-theorem c08_fails_nexthop16 : ¬ C08Holds noFix attrTable xp0 bodyNextHop16 :=
-  not_c08_of [tOrigin, tAsPath] tNextHop16 [] (by decide) (by decide) (by decide) (by decide) (by decide)
-
-/-- C08b: an AS_PATH segment with no AS number is accepted (RFC 7606 §7.2: malformed). -/
+/-- C08b, OPEN: an AS_PATH segment with no AS number is accepted by the code as it is (RFC 7606 §7.2:
+    malformed): not marked, 10.0.0.0/24 announced — the full statement fails on this body. -/
 theorem c08_fails_segment0 : ¬ C08Holds noFix attrTable xp0 bodySeg0 :=
   not_c08_of [tOrigin] tSeg0 [tNextHop] (by decide) (by decide) (by decide) (by decide) (by decide)
 
-/-- C08c: MP_UNREACH_NLRI with the Transitive bit set is dropped without a trace, the UPDATE goes on as if it
-    had not been there (RFC 7606 §3.c: malformed; §7.12: session reset). -/
-theorem c08_fails_flags : ¬ C08Holds noFix attrTable xp0 bodyUnreachFlags :=
-  not_c08_of [tOrigin, tAsPath, tNextHop] tUnreachFlags [] (by decide) (by decide) (by decide) (by decide) (by decide)
+-- … and is the only thing `GapFree` excludes there: the repaired segment walk refuses the value
+example : ¬ GapFree noFix xp0 tSeg0 := by unfold GapFree; decide
+example : okAnd (fun r => r.announce.isEmpty && r.taw && r.withdraw.length == 1)
+    (decodeWith allFix attrTable xp0 bodySeg0) = true := by decide
 
--- C08c on COMMUNITY (flags 0x40: dropped without a trace, route announced without it) is replayed on the real
--- code from corpus/C08/07-C08c-community-flags.json; it is not a Lean witness on the generated table because it
--- stops being one as soon as COMMUNITY gets TREAT_AS_WITHDRAW.
+-- formerly `c08_fails_origin9` (F5): ORIGIN 9 → marked, nothing announced, 10.0.0.0/24 withdrawn
+example : okAnd (fun r => r.announce.isEmpty && r.taw && r.withdraw.length == 1 && r.attrs.map (·.code) == [2, 3, 4])
+    (decodeExa xp0 bodyOrigin9) = true := by decide
+-- formerly `c08_fails_med3` (F5)
+example : okAnd (fun r => r.announce.isEmpty && r.taw && r.withdraw.length == 1) (decodeExa xp0 bodyMed3) = true := by decide
+-- formerly `c08_fails_overrun` (F6): the COMMUNITY declared 8 with 4 left is not an attribute of the result
+example : okAnd (fun r => r.announce.isEmpty && r.taw && !r.attrs.any (fun k => k.code == 8))
+    (decodeExa xp0 bodyOverrun) = true := by decide
+-- formerly `c08_fails_nexthop16` (C08a)
+example : okAnd (fun r => r.announce.isEmpty && r.taw && !r.attrs.any (fun k => k.code == 3))
+    (decodeExa xp0 bodyNextHop16) = true := by decide
+-- formerly `c08_fails_flags` (C08c): MP_UNREACH_NLRI with the Transitive bit → NOTIFICATION 3/4
+example : (match decodeExa xp0 bodyUnreachFlags with | .error (.notify 3 4) => true | _ => false) = true := by decide
+-- C08c on COMMUNITY: well-known flags → marked, nothing announced
+example : okAnd (fun r => r.announce.isEmpty && r.taw) (decodeExa xp0 bodyCommFlags) = true := by decide
+-- 9af6928: the four unused flag bits are ignored: ORIGIN with flags 0x4f is ORIGIN
+example : okAnd (fun r => r.announce.length == 1 && !r.taw && r.attrs.map (·.code) == [1, 2, 3, 4])
+    (decodeExa xp0 (mkBody [tOriginLowBits, tAsPath, tNextHop, tMed] nlri24)) = true := by decide
 
 /-! ## non-vacuity -/
 
--- the hypotheses of `c08_repaired` / `c08_any_repair_state` are met by a concrete UPDATE, and the conclusion
--- is the treat-as-withdraw disjunct: nothing announced, 10.0.0.0/24 withdrawn, marked
+-- the hypotheses of `c08_partial` are met by a concrete UPDATE (treat-as-withdraw disjunct)
 example : occurrences bodyOrigin9 = [] ++ tOrigin9 :: [tAsPath, tNextHop, tMed] := by decide
 example : malformed xp0.p tOrigin9 = true := by decide
-example : okAnd (fun r => r.announce.isEmpty && r.taw && r.withdraw.length == 1 && r.attrs.length == 3)
-    (decodeWith allFix attrTable xp0 bodyOrigin9) = true := by decide
-
--- … and for the unchanged code `GapFree noFix` holds for that occurrence (`c08_partial` applies: marked)
-example : GapFree noFix attrTable xp0 tOrigin9 :=
-  ⟨Or.inr (by decide), by decide, Or.inr (fun row _ hr => absurd hr (by decide))⟩
 
 -- the discard disjunct: AGGREGATOR of 5 bytes on a 4-byte-AS session: dropped alone, route announced with
 -- ORIGIN, AS_PATH, NEXT_HOP (the Discard marker is set: read_message hands the reactor a NOP after the API event)
@@ -236,16 +218,17 @@ def tAgg5 : Tlv := ⟨0xc0, 7, 5, [0, 0, 0, 0, 0]⟩
 def bodyAgg5 : Bytes := mkBody [tOrigin, tAsPath, tNextHop, tAgg5] nlri24
 example : malformed xp0.p tAgg5 = true ∧ rfc7606Class tAgg5.code = some .discard := by decide
 example : okAnd (fun r => !r.announce.isEmpty && !r.taw && r.disc && r.attrs.map (·.code) == [1, 2, 3])
-    (decodeWith allFix attrTable xp0 bodyAgg5) = true := by decide
+    (decodeExa xp0 bodyAgg5) = true := by decide
 
--- the well-formed base is not touched by any repair: one route announced, four attributes, not marked
-example : okAnd (fun r => r.announce.length == 1 && !r.taw && !r.disc && r.attrs.map (·.code) == [1, 2, 3, 4])
-    (decodeWith allFix attrTable xp0 (mkBody [tOrigin, tAsPath, tNextHop, tMed] nlri24)) = true := by decide
+-- the well-formed base: one route announced, four attributes, not marked
 example : okAnd (fun r => r.announce.length == 1 && !r.taw && !r.disc && r.attrs.map (·.code) == [1, 2, 3, 4])
     (decodeExa xp0 (mkBody [tOrigin, tAsPath, tNextHop, tMed] nlri24)) = true := by decide
 
--- the overrun witness, repaired: marked, nothing announced, the COMMUNITY is not an attribute of the result
-example : okAnd (fun r => r.announce.isEmpty && r.taw && !r.attrs.any (fun k => k.code == 8))
-    (decodeWith allFix attrTable xp0 bodyOverrun) = true := by decide
+-- a0181bd: AS4_PATH on a 4-octet session is dropped, on a 2-octet session merged
+def tAs4Path : Tlv := ⟨0xc0, 17, 6, [2, 1, 0, 0, 0xfd, 0xe9]⟩
+def tAsPath2 : Tlv := ⟨0x40, 2, 4, [2, 1, 0xfd, 0xe9]⟩
+example : okAnd (fun r => r.attrs.map (·.code) == [1, 2, 3]) (decodeExa xp0 (mkBody [tOrigin, tAsPath, tNextHop, tAs4Path] nlri24)) = true := by decide
+example : okAnd (fun r => r.attrs.map (fun k => (k.code, k.merged)) == [(1, false), (3, false), (2, true)])
+    (decodeExa { xp0 with p := { xp0.p with asn4 := false } } (mkBody [tOrigin, tAsPath2, tNextHop, tAs4Path] nlri24)) = true := by decide
 
 end Exa.Props.C08
